@@ -17,8 +17,12 @@ fn bin_for(profile: &str) -> PathBuf {
     if let Ok(p) = std::env::var(format!("MZV_BIN_{}", profile.to_uppercase())) {
         return p.into();
     }
-    // target/release/mzv -> target/<profile>/mzv
-    me.parent().unwrap().parent().unwrap().join(profile).join("mzv")
+    // target/release/mzv -> target/<profile>/mzv ; simd: target-simd/release/mzv
+    let target = me.parent().unwrap().parent().unwrap();
+    if profile == "simd" {
+        return target.parent().unwrap().join("target-simd").join("release").join("mzv");
+    }
+    target.join(profile).join("mzv")
 }
 
 struct Slot {
@@ -50,7 +54,13 @@ pub fn orchestrate<P: Prop>(tier: Tier) -> i32 {
     let mut machinery: Vec<String> = Vec::new();
     let known_all = load_known(id);
 
-    let profiles: Vec<&str> = if meta.dbg { vec!["rel", "dbg"] } else { vec!["rel"] };
+    let mut profiles: Vec<&str> = vec!["rel"];
+    if meta.dbg {
+        profiles.push("dbg");
+    }
+    if meta.simd {
+        profiles.push("simd");
+    }
     for p in &profiles {
         if !bin_for(p).exists() {
             eprintln!("missing binary for profile {p}: {}", bin_for(p).display());
@@ -83,19 +93,22 @@ pub fn orchestrate<P: Prop>(tier: Tier) -> i32 {
     let ncpu = std::thread::available_parallelism().map(|n| n.get()).unwrap_or(4).min(16).max(2);
     let total = P::cases(tier);
     let n_dbg = if meta.dbg { (ncpu / 4).max(1) } else { 0 };
-    let n_rel = ncpu - n_dbg;
+    let n_simd = if meta.simd { (ncpu / 4).max(1) } else { 0 };
+    let n_rel = ncpu - n_dbg - n_simd;
     let mut slots: Vec<Slot> = Vec::new();
     let mut plan: Vec<(String, usize, usize, u64)> = Vec::new(); // profile, widx, nworkers(for that profile), cases
-    for w in 0..n_rel {
-        // rel workers take 3/4 (or all) of the random cases
-        let share = if meta.dbg { total * 3 / 4 } else { total };
-        let n = share / n_rel as u64 + if (w as u64) < share % n_rel as u64 { 1 } else { 0 };
-        plan.push(("rel".into(), w, n_rel, n));
-    }
-    for w in 0..n_dbg {
-        let share = total - total * 3 / 4;
-        let n = share / n_dbg as u64 + if (w as u64) < share % n_dbg as u64 { 1 } else { 0 };
-        plan.push(("dbg".into(), w, n_dbg, n));
+    // random cases are split in proportion to the number of workers of each profile
+    let mut rest = total;
+    for (profile, nw) in [("dbg", n_dbg), ("simd", n_simd), ("rel", n_rel)] {
+        if nw == 0 {
+            continue;
+        }
+        let share = if profile == "rel" { rest } else { total * nw as u64 / ncpu as u64 };
+        rest -= share.min(rest);
+        for w in 0..nw {
+            let n = share / nw as u64 + if (w as u64) < share % nw as u64 { 1 } else { 0 };
+            plan.push((profile.to_string(), w, nw, n));
+        }
     }
     for (gi, (profile, widx, nw, n)) in plan.iter().enumerate() {
         let mut s = seed ^ crate::oracle::sums::fnv64(id.as_bytes()) ^ ((gi as u64 + 1) << 48);
